@@ -65,6 +65,20 @@ func (e *Env) specFunc(name string) *SpecFunc {
 	return nil
 }
 
+func (e *Env) ghostDecl(name string) *GhostDecl {
+	if e.sf != nil {
+		if g, ok := e.sf.Ghosts[name]; ok {
+			return g
+		}
+	}
+	if e.g != nil && e.g.extern != nil {
+		if g, ok := e.g.extern.Ghosts[name]; ok {
+			return g
+		}
+	}
+	return nil
+}
+
 func (e *Env) bool(x *Expr) *Term {
 	v := e.eval(x)
 	if v.T == nil || v.T.Sort != SBool {
@@ -102,6 +116,11 @@ func elemTypeOf(t types.Type) types.Type {
 func (e *Env) elemArray(s Val) *Term {
 	if s.Arr != nil {
 		return s.Arr
+	}
+	if s.GHeap != "" {
+		et := elemTypeOf(s.Typ)
+		h := e.v.heap(e.st, s.GHeap, HeapSort(sortOf(et)))
+		return Select(h, SRef(s.T))
 	}
 	et := elemTypeOf(s.Typ)
 	if et == nil {
@@ -185,7 +204,7 @@ func (e *Env) eval(x *Expr) Val {
 		if x.Args[2] != nil {
 			hi = e.int(x.Args[2])
 		}
-		return Val{T: MkSlice(SRef(s.T), Add(SOff(s.T), lo), Sub(hi, lo), Sub(SCap(s.T), lo)), Typ: s.Typ, Arr: s.Arr}
+		return Val{T: MkSlice(SRef(s.T), Add(SOff(s.T), lo), Sub(hi, lo), Sub(SCap(s.T), lo)), Typ: s.Typ, Arr: s.Arr, GHeap: s.GHeap}
 	case "field":
 		return e.field(x)
 	case "quant":
@@ -461,6 +480,21 @@ func (e *Env) call(x *Expr) Val {
 		return boolVal(Or(Ne(SRef(a.T), SRef(b.T)),
 			Le(Add(SOff(a.T), SCap(a.T)), SOff(b.T)),
 			Le(Add(SOff(b.T), SCap(b.T)), SOff(a.T))))
+	}
+	if gd := e.ghostDecl(x.Name); gd != nil {
+		if len(x.Args) != 1 {
+			specErr("ghost %s takes one argument", x.Name)
+		}
+		a := e.eval(x.Args[0])
+		if a.T == nil || a.T.Sort != SSlice {
+			specErr("ghost %s: carrier must be a slice", x.Name)
+		}
+		et := e.g.parseType(gd.Elem, e.pkg)
+		if gd.Scalar {
+			h := e.v.heap(e.st, "HG_"+gd.Name, ArrSort(sortOf(et)))
+			return Val{T: Select(h, SRef(a.T)), Typ: et}
+		}
+		return Val{T: a.T, Typ: types.NewSlice(et), GHeap: "HG_" + gd.Name}
 	}
 	f := e.specFunc(x.Name)
 	if f == nil {
